@@ -1,6 +1,7 @@
 package props
 
 import (
+	"bytes"
 	"encoding/hex"
 	"encoding/json"
 	"fmt"
@@ -108,7 +109,9 @@ func runC16(c *core.Ctx, r *core.Result) {
 		}
 	}
 	rec(0, nil)
-	placements := []string{"separate", "onebatch", "spread"}
+	// "twobatches": [q0,q1] in one entry and q2 in another, for multisets with q1 == q2: an exact tie between a request at
+	// transaction index 1 of one entry and a request at index 0 of another (either entry hash may be the lower one)
+	placements := []string{"separate", "onebatch", "spread", "twobatches"}
 	idx := 0
 	for _, ek := range []string{"perheight", "pooled", "fork-at-exec", "fork-after-exec", "limit-at-exec"} {
 		era := c16Era(ek)
@@ -122,6 +125,9 @@ func runC16(c *core.Ctx, r *core.Result) {
 					continue
 				}
 				if pl == "spread" && len(ms) < 2 {
+					continue
+				}
+				if pl == "twobatches" && !(len(ms) == 3 && ms[1] == ms[2]) {
 					continue
 				}
 				idx++
@@ -195,6 +201,11 @@ func c16One(c *core.Ctx, r *core.Result, w *World, era drive.Era, placement stri
 	h1 := b.Next()
 	var blk1, blk2 []fake.Entry
 	switch placement {
+	case "twobatches":
+		e1 := b.Tx(KA, kit.Conversion(AddrA, reqs[0].src, input(reqs[0]), "PEG"), kit.Conversion(AddrA, reqs[1].src, input(reqs[1]), "PEG"))
+		e2 := b.Tx(KA, kit.Conversion(AddrA, reqs[2].src, input(reqs[2]), "PEG"))
+		blk1 = append(blk1, e1, e2)
+		ps = append(ps, placed{e1, 0, input(reqs[0]), reqs[0].src, h1}, placed{e1, 1, input(reqs[1]), reqs[1].src, h1}, placed{e2, 0, input(reqs[2]), reqs[2].src, h1})
 	case "onebatch":
 		var txs []kit.Tx
 		for _, q := range reqs {
@@ -385,9 +396,33 @@ func c16One(c *core.Ctx, r *core.Result, w *World, era drive.Era, placement stri
 		if total.Cmp(bank) > 0 {
 			dust = int64(bankPEG) - sumFloor
 		}
+		// who gets the dust: the pinned tree gives it to the largest request; among equal largest requests to the one with the
+		// lowest entry hash, then the lowest transaction index (its documented tie-break, ConversionSupplySet.Payouts)
+		winner := -1
+		for _, i := range set {
+			if winner < 0 || requested[i].Cmp(requested[winner]) > 0 {
+				winner = i
+				continue
+			}
+			if requested[i].Cmp(requested[winner]) == 0 {
+				hi, hw := fake.EntryHash(drive.IDs.TX, ps[i].entry), fake.EntryHash(drive.IDs.TX, ps[winner].entry)
+				if c := bytes.Compare(hi[:], hw[:]); c < 0 || (c == 0 && ps[i].txIdx < ps[winner].txIdx) {
+					winner = i
+				}
+			}
+		}
 		for j, i := range set {
 			y := os[i].yield
 			sumYield += y
+			if dust > 0 && y >= floors[j] && y <= floors[j]+dust {
+				want := floors[j]
+				if i == winner {
+					want += dust
+				}
+				if y != want {
+					viol("dust-not-with-the-first-largest-request", fmt.Sprintf("request %d (transaction %d of its entry): yield %d, floored share %d; the dust of %d belongs to request %d", i, ps[i].txIdx, y, floors[j], dust, winner))
+				}
+			}
 			if y < floors[j] || y > floors[j]+dust {
 				viol("yield-not-proportional", fmt.Sprintf("request %d (%d %s): yield %d, floored share %d, dust %d (requested %s of total %s, bank %d)", i, ps[i].in, ps[i].src, y, floors[j], dust, requested[i], total, bankPEG))
 			}
